@@ -422,10 +422,64 @@ def teardown_panic_table(chk, F, rule, config):
         t = p.outcome
         last = [e for e in p.effects if e.kind == 'call'][-1]
         arg = last.data[2][0] if last.data[2] else ('unk', 'noarg')
-        check_pipeline(chk, rule, fn, config, 'panic-message', arg,
-                       lambda x: x[0] == 'field' and x[2] == '0' and x[1][0] == 'as' and x[1][2] == 'Err' and is_call(x[1][1], r'^teardown::teardown$'),
-                       'panic message of teardown_panic is built from every error')
+        src = lambda x: x[0] == 'field' and x[2] == '0' and x[1][0] == 'as' and x[1][2] == 'Err' and is_call(x[1][1], r'^teardown::teardown$')  # noqa: E731
+        if pipeline_calls(arg, src) is None and accumulated_message(chk, rule, fn, config, p, arg, src):
+            continue
+        check_pipeline(chk, rule, fn, config, 'panic-message', arg, src, 'panic message of teardown_panic is built from every error')
     return fn
+
+
+ACCUMULATE_OK = re.compile(r'(String::push_str$|String::push$|Write>?::write_str$|Write>?::write_fmt$|AddAssign<.*>>?::add_assign$|String::extend\w*$|Extend<.*>>?::extend$|String::reserve$)')
+
+
+def accumulated_message(chk, rule, fn, config, p, arg, source_pred):
+    """loop form of `errors.iter().map(to_string).collect().join(..)`: a fresh String that is only appended to, inside a loop
+    that walks the errors front to back to exhaustion and appends a rendering of every element. Returns False when the shape is
+    not this one (the caller then reports through the pipeline rule)."""
+    cur = arg
+    names = []
+    for _ in range(40):
+        while isinstance(cur, tuple) and cur and cur[0] == 'havoc':
+            if len(cur) > 3:
+                names.append(cur[3])
+            cur = cur[2]
+        if not isinstance(cur, tuple) or not cur:
+            return False
+        if cur[0] == 'ref' and len(cur) > 3:
+            cur = cur[3]
+            continue
+        break
+    if not (is_call(cur, r'String::(new|with_capacity)$') and all(ACCUMULATE_OK.search(n) for n in names)):
+        return False
+    nexts = [e for e in p.effects if e.kind == 'call' and re.search(r'Iterator>?::next$', e.data[1])]
+    if not nexts:
+        return False
+    ok_src = True
+    for e in nexts:
+        pn = pipeline_calls(e.data[2][0], source_pred)
+        ok_src = ok_src and pn is not None and not any(ORDER_DENY.search(n) for n in pn) and all(ORDER_PRESERVING_TOTAL.search(n) or re.search(r'Iterator>?::next$', n) for n in pn)
+    chk.ob(rule, 'panic message of teardown_panic is built from every error: the loop walks the error list itself, front to back', ok_src, config=config, fn=fn, site='panic-message:loop-source',
+           what='accumulating loop source', found=[e.data[1] for e in nexts][:3])
+    # ran to completion before the panic: the last decision on the loop's `next` is None
+    last = None
+    some = []
+    for d in p.decisions:
+        v = strip(d.value)
+        if is_iter_next(v):
+            last = decision_variant(p_facts(d), d)
+            if last == 'Some':
+                some.append(strip(v[1]))
+    chk.ob(rule, 'panic message of teardown_panic is built from every error: the loop runs to exhaustion before the panic', last == 'None', config=config, fn=fn, site='panic-message:loop-complete',
+           what='accumulating loop exit %s' % last, found=last)
+    # every element is rendered into the message
+    pushes = [e for e in p.effects if e.kind == 'call' and ACCUMULATE_OK.search(e.data[1])]
+    rendered = 0
+    for el in some:
+        if any(mentions(a, lambda x: x == el) for e in pushes for a in e.data[2][1:]):
+            rendered += 1
+    chk.ob(rule, 'panic message of teardown_panic is built from every error: each element is appended', rendered == len(some) and (bool(some) or not names), config=config, fn=fn, site='panic-message:loop-append',
+           what='elements appended %d/%d' % (rendered, len(some)), found={'iterations': len(some), 'appended': rendered})
+    return True
 
 
 def teardown_report_table(chk, F, rule, config):
